@@ -10,11 +10,12 @@ E7Small == {El7(k, t, id, f, "full", "own", "child") :
            \* the addressing and namespace dimensions: every sender x addressee x namespace of a request and of a reply
            \cup {El7("iq", t, "a", f, to, ns, "child") : t \in {"set", "error"}, f \in {"none", "own", "ownfull", "peer", "domain"},
                                                        to \in {"none", "full", "bare"}, ns \in {"own", "other"}}
-P7Small == {Prog7("all", w, r) : w \in WNames, r \in {"ok", "err"}}
+P7Small == {Prog7("all", w, r, "none") : w \in WNames, r \in {"ok", "err", "stanzaerr"}}
+           \cup {Prog7("all", w, "ok", m) : w \in {"none", "otherid", "reply"}, m \in Muts}
 C7ItemsMC == {[e |-> e, p |-> p] : e \in E7Small, p \in P7Small}
 (* two elements in a row: the second is a plain request *)
-C7ItemsSeq == {[e |-> El7("iq", t, "a", "peer", "full", ns, "child"), p |-> Prog7("all", w, r)] :
-                 t \in {"get", "result"}, ns \in {"own", "other"}, w \in {"none", "reply", "otherid"}, r \in {"ok", "err"}}
+C7ItemsSeq == {[e |-> El7("iq", t, "a", "peer", "full", ns, "child"), p |-> Prog7("all", w, r, "none")] :
+                 t \in {"get", "result"}, ns \in {"own", "other"}, w \in {"none", "reply", "otherid"}, r \in {"ok", "err", "stanzaerr"}}
 
 (* part 2: inputs x program cycles *)
 B0 == <<>>
